@@ -423,6 +423,11 @@ func CalculateBestCacheSize(argb []uint32, quality int, refs *BackwardRefs, cach
 	var histoSlab []Histogram
 	if scratch != nil && cap(scratch.CacheSizeHistoSlab) >= numHistos {
 		histoSlab = scratch.CacheSizeHistoSlab[:numHistos]
+		// The counts below are accumulated with ++, so a reused slab must
+		// start from zero exactly like a freshly allocated one.
+		for i := range histoSlab {
+			histoSlab[i] = Histogram{}
+		}
 	} else {
 		histoSlab = make([]Histogram, numHistos)
 		if scratch != nil {
